@@ -1,5 +1,7 @@
 package main
 
+import "strings"
+
 // Property plans: which packages / build configurations / contract groups decide each property.
 
 func buildPlan(id string, pinned map[string]string, tier string) *Plan {
@@ -29,6 +31,30 @@ func buildPlan(id string, pinned map[string]string, tier string) *Plan {
 		p.Trusted = []string{"pinned moduli in /verif/contracts/params.json", "axiomatic semantics of encoding/binary big/little-endian accessors"}
 		p.NotCovered = []string{"SetBytes / SetBigInt / BigInt / Text / SetString / JSON (math/big, strconv): not under contract", "Vector ReadFrom / AsyncReadFrom / WriteTo / MarshalBinary: not under contract"}
 		p.Note = "Canonical byte decoders accept exactly encodings below q; encoders and decoders are mutually inverse (lemma functions verified from the two contracts); integer setters produce the residue mod q; comparisons act on the regular value."
+		return p
+	case "C02":
+		p := &Plan{ID: id}
+		seen := map[string]bool{}
+		for _, c := range pointCfgs {
+			g := strings.ToLower(c.Point)
+			key := c.Rel + g
+			if seen[key] {
+				continue
+			}
+			seen[key] = true
+			p.Units = append(p.Units, Unit{Pkg: "./" + c.Rel, Tags: "", Groups: []string{g}})
+		}
+		p.Units = append(p.Units, Unit{Pkg: "./ecc/stark-curve", Tags: "", Groups: []string{"g1"}})
+		p.Trusted = []string{
+			"ring layer: methods of the coordinate field (fp.Element, fptower.E2, fptower.E4) are interpreted by the ring operation their own contracts state (C01 / C06)",
+			"Z-lifting of polynomial identities; inputs are parametrised by (affine point, projective scaling), which eliminates all hypotheses by substitution",
+			"textbook chord and tangent rules (computed by the tool: ecAddXNum, ecAddYNum, ecDblXNum, ecDblYNum) for y^2 = x^3 + a x + b with the published a",
+			"ring predicates IsZero / Equal are uninterpreted: branch conditions are matched syntactically after polynomial normalisation"}
+		p.Assumptions = []string{"field facts not proved here: a product of non-zero elements is non-zero (so the exact scaling clauses show finiteness), 2 != 0, and the equal-point test on cross-multiplied coordinates decides equality of the represented affine points when both Z are non-zero"}
+		p.NotCovered = []string{"G1Affine.Add / Sub / Double (affine formulas through FromJacobian and Inverse): only FromJacobian's formula is under contract",
+			"IsInSubGroup, batch conversions, stark-curve addition formulas (hand-written package with different parameter names: only its doubling formulas are under contract)",
+			"twisted-Edwards companions: not under contract", "numeric value of bCurveCoeff / bTwistCurveCoeff is not checked at the ring layer"}
+		p.Note = "Every branch of every Jacobian and extended-Jacobian addition, mixed addition, doubling, negation and conversion under contract returns a representative of the point prescribed by the chord-and-tangent law, for every representative of the inputs (all projective scalings), with the branch taken determined by the code's own zero/equality tests."
 		return p
 	case "C06":
 		p := &Plan{ID: id}
